@@ -1057,6 +1057,7 @@ type hdSessionDigest struct {
 	Perms     []string
 	HasPerms  bool
 	Pubs      []string
+	PubMedia  int // audio (1) / video (2) carried by the non-screen publishers
 	Subs      []string
 	Pending   int
 	Counted   bool // in Backend.sessions
@@ -1163,8 +1164,16 @@ func (s *hdSystem) digest() *hdDigest {
 					sd.Perms = append(sd.Perms, string(p))
 				}
 			}
-			for st := range cs.publishers {
+			for st, p := range cs.publishers {
 				sd.Pubs = append(sd.Pubs, string(st))
+				if st != StreamTypeScreen {
+					if p.HasMedia(MediaTypeAudio) {
+						sd.PubMedia |= 1
+					}
+					if p.HasMedia(MediaTypeVideo) {
+						sd.PubMedia |= 2
+					}
+				}
 			}
 			for id := range cs.subscribers {
 				sd.Subs = append(sd.Subs, id)
